@@ -567,6 +567,78 @@ def raw(R, ctx):
     R.require(rid, "floor", n >= 60, "", "%d raw write sites (floor 60)" % n)
 
 
+def wrap_points(R, ctx):
+    """Line wrapping never separates a callee from its argument list (finite-domain evaluation of the generators)."""
+    import re as _re
+    from .. import peval
+    from ..peval import Enum, Struct, NONE, make
+    rid = "C02.wrap"
+    lib = ctx.lib
+    R.rule(rid, "the dense and the readable generator, built with their public constructor for column spans 8 and 10 and driven through "
+                "LuaGenerator::write_identifier / write_function_call, evaluated for every amount of text already on the line (0..span+2) and the "
+                "call forms `callee()`, `callee(a)`, `obj.f()`, `obj:m()`, `callee()()`: no output line begins with `(` -- a line break "
+                "between a callee and its argument list is `ambiguous syntax` in Lua 5.1 and Luau (and binds the list to the previous "
+                "statement in later versions)")
+    N = "nodes::"
+    PREFIX, FC, ID, FE = N + "expressions::prefix::Prefix", N + "function_call::FunctionCall", N + "identifier::Identifier", N + "expressions::field::FieldExpression"
+    ARGS, TUP = N + "arguments::Arguments", N + "arguments::TupleArguments"
+
+    def ident(n):
+        return make(lib, ID, {"name": n})
+
+    def method_value(name):
+        # FunctionCall.method is Option<Identifier> or Option<a struct holding the identifier>: shape from the ADT metadata
+        t = [f["tys"] for v in lib.adts[FC]["variants"] for f in v["fields"] if f["name"] == "method"]
+        inner = t[0][len("core::option::Option<"):-1] if t and t[0].startswith("core::option::Option<") else ID
+        if inner == ID or inner not in lib.adts:
+            return ident(name)
+        fld = [f["name"] for v in lib.adts[inner]["variants"] for f in v["fields"] if ID in f.get("tys", "")]
+        return make(lib, inner, {fld[0]: ident(name)} if fld else {})
+
+    def call(prefix, values=(), method=None):
+        return make(lib, FC, {"prefix": prefix, "arguments": Enum(ARGS, "Tuple", {"0": make(lib, TUP, {"values": list(values)})}),
+                              "method": peval.some(method_value(method)) if method else NONE})
+    forms = {
+        "callee()": lambda: call(Enum(PREFIX, "Identifier", {"0": ident("callee")})),
+        "callee(a)": lambda: call(Enum(PREFIX, "Identifier", {"0": ident("callee")}), [Enum(EXPR, "Identifier", {"0": ident("a")})]),
+        "obj.f()": lambda: call(Enum(PREFIX, "Field", {"0": make(lib, FE, {"prefix": Enum(PREFIX, "Identifier", {"0": ident("obj")}), "field": ident("f")})})),
+        "obj:m()": lambda: call(Enum(PREFIX, "Identifier", {"0": ident("obj")}), method="m"),
+        "callee()()": lambda: call(Enum(PREFIX, "Call", {"0": call(Enum(PREFIX, "Identifier", {"0": ident("callee")}))})),
+    }
+    gens = [a for a in lib.adts if a.startswith("generator::") and lib.fn("<%s as generator::LuaGenerator>::write_function_call" % a) is not None]
+    wrapping = []
+    for G in sorted(gens):
+        new = lib.fn(G + "::new")
+        if new is None or len(new["thir"].get("params", [])) != 1 or lib.ty_str(new["thir"]["params"][0]["t"]) != "usize":
+            continue  # no column span: the generator does not wrap lines
+        wrapping.append(G)
+        bad, unk, n = [], [], 0
+        for span in (8, 10):
+            for pad in range(0, span + 3):
+                for form, build in forms.items():
+                    pe = peval.PEval(lib, ctx.an)
+                    try:
+                        gen = pe.call_fn(new, [span])
+                        if pad:
+                            pe.call_path("<%s as generator::LuaGenerator>::write_identifier" % G, [gen, ident("p" * pad)])
+                        pe.call_path("<%s as generator::LuaGenerator>::write_function_call" % G, [gen, build()])
+                    except peval.OutOfFuel:
+                        unk.append((form, "no termination"))
+                        continue
+                    n += 1
+                    outs = [v for v in (gen.fields.values() if isinstance(gen, Struct) else []) if isinstance(v, str)]
+                    if pe.unknown_reasons or len(outs) != 1:
+                        unk.append((form, pe.unknown_reasons[:1]))
+                        continue
+                    if _re.search(r"\n[ \t]*\(", outs[0]):
+                        bad.append("span %d, %d characters on the line, `%s` is written as %r" % (span, pad, form, outs[0]))
+        short = G.split("::")[-1]
+        R.ob(rid, "%s|established" % short, not unk, ctx.adt_where(G), "all %d states evaluate" % n if not unk else "not established: %s %s" % unk[0])
+        R.ob(rid, "%s|no-line-starts-with-paren" % short, not bad, ctx.adt_where(G),
+             "in all %d states the argument list stays on the callee's line" % n if not bad else "%s (%d states)" % (bad[0], len(bad)))
+    R.require(rid, "anchor:wrapping-generators", len(wrapping) >= 2, "", "generators with a column span: %s" % [g.split("::")[-1] for g in wrapping])
+
+
 def run(R, ctx):
     R.explanation = (
         "Decision tables extracted statically from the precedence/associativity/parenthesis functions and from should_break_with_space "
@@ -582,3 +654,4 @@ def run(R, ctx):
     semi(R, ctx)
     fuse(R, ctx)
     raw(R, ctx)
+    wrap_points(R, ctx)
